@@ -157,6 +157,9 @@ class ClockSim:
         self.total = 0.0
         self.slow_prob = float(plan.get("slow_prob", 0.0))
         self.slow_factor = float(plan.get("slow_factor", 1.0e7))
+        # count addressing (serial runs): the machine stalls during the n-th deadline-
+        # guarded call of the generation, whichever refinement pass that is
+        self.stall_at = int(plan.get("stall_at_timeout", 0))
         # one ODE right-hand-side evaluation (three psi evaluations) costs ~5e-5 s on the
         # reference machine: a refinement that runs away inside solve_ivp passes a 10 s
         # deadline after ~2e5 evaluations, as it would under the real func_timeout
@@ -187,6 +190,8 @@ class ClockSim:
         dt = self.base * self.slowness * jitter
         if self.slow_prob and _u01(self.key, "slow", p.R, p.Z) < self.slow_prob:
             dt *= self.slow_factor  # a point near a coil: the solver crawls
+        if self.stall_at and self.timeouts_started == self.stall_at and self.stack[tid]:
+            dt *= self.slow_factor
         self.clock[tid] += dt
         self.total += dt
         st = self.stack[tid]
